@@ -80,7 +80,7 @@ PROPS['C03'] = dict(
 )
 PROPS['C13'] = dict(
   level='proof',
-  verus=[dict(unit='ops', min_functions=12), dict(unit='klass', min_functions=4), dict(unit='cachetrace', min_functions=1), dict(unit='propcomp', min_functions=6), dict(unit='fieldsc', min_functions=1), dict(unit='classc', min_functions=1)],
+  verus=[dict(unit='ops', min_functions=12), dict(unit='klass', min_functions=4), dict(unit='cachetrace', min_functions=1), dict(unit='propcomp', min_functions=6), dict(unit='fieldsc', min_functions=1), dict(unit='classc', min_functions=1), dict(unit='cacheidx', min_functions=1)],
   not_decided=['A-slot: every slot id in live code of a module is inside that module\'s cache and belongs to one site with one name (established by Vm::compile; false for REPL entries, see C19)',
                'A-classid: a class address identifies one class for as long as it sits in a cache: holds since fix ae3a806 made the caches roots (D21; the root-set obligation is in the gctrace unit, that InlineCache::trace reaches every entry in the cachetrace unit)'],
 )
@@ -147,7 +147,7 @@ PROPS['C11'] = dict(
   kani=[dict(crate='lib', harnesses=['proofs::o11_determine_index', 'proofs::o11_list_determine_index'], kind='complete', extra=['-Z', 'unstable-options', '--no-overflow-checks'], timeout=900, jobs=2, assumption_ids=['A-kani']),
         dict(crate='coll', harnesses=['proofs::o11_pop'], kind='bounded', bound='list len <= 2, cap 3', timeout=900, jobs=1, assumption_ids=['A-kani', 'A-bound']),
         dict(crate='coll', harnesses=['proofs::o11_remove', 'proofs::o11_insert'], kind='bounded', bound='list len <= 3, cap 3, every index 0..4', tier='thorough', timeout=1800, jobs=2, assumption_ids=['A-kani', 'A-bound'])],
-  verus=[dict(unit='listops', min_functions=6), dict(unit='native', min_functions=1), dict(unit='ncall', min_functions=1), dict(unit='natargs', min_functions=100), dict(unit='natargs', variant='findings', only=['N_ListCollect', 'N_TupleCollect', 'N_IterZip', 'N_IterChain'])],
+  verus=[dict(unit='listops', min_functions=6), dict(unit='native', min_functions=1), dict(unit='ncall', min_functions=1), dict(unit='natargs', min_functions=100), dict(unit='natargs', variant='findings', only=['N_ListCollect', 'N_TupleCollect', 'N_IterZip', 'N_IterChain']), dict(unit='iteradapt', min_functions=3)],
   explanation='Verus proof of the real List push / pop / insert / remove against the sequence model (unbounded, with growth); loop-free Kani proof of index normalisation over every f64 (receiver length <= 8), bounded Kani checks of List buffer edits against a sequence model, Verus proof of the native signature gate',
   not_decided=['iterator adaptors, string natives, map natives, tuple/list natives other than index normalisation (callbacks, Hooks, str)'],
 )
